@@ -251,8 +251,10 @@ def run_case(spec, j):
         # (the twin is a separate fit: LFDA with n_components < d starts
         # ARPACK from a random vector, which on ill-conditioned data moves
         # distances by up to ~1e-10 relative)
+        # (relative to |L| |u - v|, not to d: for differences in the null
+        # space of the original L the twin's distance is its own L-noise)
         j.close('C02.form.prep-' + kind, np.asarray(got)[sel], d1[sel],
-                1e-7 * np.abs(d1[sel]) + tol_diff[sel], det)
+                1e-7 * (np.abs(d1[sel]) + Lf * nd[sel]) + tol_diff[sel], det)
         if mp is not None:
           j.check('C02.form.prep-consulted', mp.n_calls > before, det)
     offset += 2 * n
